@@ -3,7 +3,7 @@
     inf/Encode.v; acceptance against the specification function: inf/Accept.v). *)
 From Coq Require Import List NArith ZArith QArith Bool Lia.
 From JS Require Import Str Lit Json Res GoValue Hash Schema Basic Env Ann Validate Spec SpecMono Refine Corollaries
-     GoType Encode Infer InferFacts Accept WellTyped C04Main FieldsFacts Domain.
+     Uri Resolve ResolveFacts GoType Encode Infer InferFacts Accept WellTyped C04Main FieldsFacts Domain EndToEnd.
 Import ListNotations.
 Local Open Scope nat_scope.
 
@@ -59,6 +59,18 @@ Proof.
   apply (C04_main re_match e oz o Hd Hig Hts t s Hf (S (gsize t)) (dom_good o Hstd _ t (Nat.lt_succ_diag_r _) Hdom) m v k j Hw He).
 Qed.
 Print Assumptions C04_domain.
+
+(** end to end in the model: For, then Resolve, then Validate on the encoding *)
+Theorem C04_end_to_end : forall re_ok re_match hash oz o,
+  o_ignore o = false -> o_tsnull o = false ->
+  (forall n x, lookup n (o_schemas o) = Some x -> x = Some str_schema) ->
+  forall t s fuel e calls,
+  dom o t = true -> ForType o t = Ok (Some s) ->
+  Resolve re_ok fuel s [] None = Ok (e, calls) ->
+  forall m v k j inst, wt m t v = true -> encode oz k t v = Some j -> gv_wf inst = true -> den inst = j ->
+  exists n, forall n', n <= n' -> Validate re_match hash n' e inst = Ok tt.
+Proof. exact For_Resolve_Validate. Qed.
+Print Assumptions C04_end_to_end.
 
 (** every selected field is the declared field at its index sequence (for every struct type) *)
 Theorem C04_fields_sound : forall ovr t,
